@@ -32,7 +32,7 @@ ASSUMPTIONS = [
 ]
 CHUNK = 3
 
-BASES = [("pair", "global", "rydberg"), ("bent3", "twophase", "rydberg"), ("bent3", "dmm", "rydberg"), ("zig4", "slm", "rydberg"), ("bent3", "global", "xy"), ("zig4", "twophase", "xy")]
+BASES = [("bent3", "orthophase", "rydberg"), ("pair", "global", "rydberg"), ("bent3", "twophase", "rydberg"), ("bent3", "dmm", "rydberg"), ("zig4", "slm", "rydberg"), ("bent3", "global", "xy"), ("zig4", "twophase", "xy")]
 
 
 def _rot(c, a):
@@ -44,7 +44,7 @@ TRANSFORMS = (
     [("translate", v) for v in ([13.0, 0.0], [-4.5, 7.25], [100.0, -40.0])]
     + [("rotate", a) for a in (np.pi / 2, np.pi / 3, 1.0)]
     + [("reflect", 0)]
-    + [("phase_offset", p) for p in (0.4, float(np.pi), -2.0)]
+    + [("phase_offset", p) for p in (0.4, float(np.pi), -2.0, float(np.pi / 2))]
     + [("phase_negate", 0), ("serialise", 0), ("center", 0)]
 )
 
@@ -78,7 +78,11 @@ def _base(shape, kind, basis, be):
 
 def _spec(shape, kind, basis):
     n = len(SHAPES[shape])
-    d = drives(kind, 0.7, n)
+    if kind == "orthophase":
+        # phases exactly 0 and pi/2: the offsets pi/2 and pi produce steps whose phase is exactly pi (sin = 0, cos = -1)
+        d = {"pulses": [{"amp": ["const", 50, 9.0], "det": ["const", 50, 1.0], "phase": 0.0}, {"amp": ["const", 50, 9.0], "det": ["const", 50, 1.0], "phase": float(np.pi / 2)}]}
+    else:
+        d = drives(kind, 0.7, n)
     spec = {"coords": SHAPES[shape], "device": "mock", "basis": basis, "pulses": d["pulses"] + d.get("extra", [])}
     for k in ("dmm", "slm", "local_channel"):
         if k in d:
